@@ -958,4 +958,27 @@ example : advancedDeepEqual (fun _ => true) trimEq
       (.node (.element 2) [.node (.comment [' ', 'c']) []]) (.node (.element 2) [.node (.comment ['c']) []]) = false := by
   decide
 
+/-! ## Histories with the convenience calls
+
+  The same two statements for histories mixing the calls of `Op` and the convenience calls (`Forest.COp`;
+  `creationRun`, `C04_reach_creation` in Props/C04.lean): no side condition at all. -/
+
+/-- ⟦C13_reachable_creation_valid⟧ Every node of every parentless tree reached by a history of `Op` calls and
+    convenience calls satisfies the structural hypotheses of this file. -/
+theorem C13_reachable_creation_valid (ops : List (Op ⊕ Forest.COp)) :
+    ∀ r ∈ (creationRun ops).roots, ∀ (p : Path) (a : Tree),
+      r.erase.at? p = some a →
+      a.valid = true ∧ a.contentLeaves = true ∧ a.noInnerDocument = true ∧
+        a.validRootFor xpathKeep = true ∧ orderedKids a.kids = true ∧ attrNamesNodup a.kids = true :=
+  fun _ hr _ _ ha => Reach.compare_hyps_root (C04_reach_creation ops) hr ha
+
+/-- ⟦C13_reachable_creation_iff⟧ … hence `deep_equal` is canonical-form equivalence between any two nodes of the
+    trees such a history reaches. -/
+theorem C13_reachable_creation_iff (ops : List (Op ⊕ Forest.COp)) :
+    ∀ r₁ ∈ (creationRun ops).roots, ∀ r₂ ∈ (creationRun ops).roots,
+    ∀ (p₁ p₂ : Path) (a b : Tree), r₁.erase.at? p₁ = some a → r₂.erase.at? p₂ = some b →
+      (deepEqual a b = true ↔ canon a = canon b) :=
+  fun r₁ h₁ r₂ h₂ p₁ p₂ a b ha hb =>
+    C13_iff a b (C13_reachable_creation_valid ops r₁ h₁ p₁ a ha).1 (C13_reachable_creation_valid ops r₂ h₂ p₂ b hb).1
+
 end XotModel.Props
